@@ -146,6 +146,7 @@ def cases(chk):
     for k in range(0, 8):
         for oldfmt in ("json", "keyval"):
             yield "crash", {"kill": k, "torn": 0, "fresh": 0, "via": "profile", "oldfmt": oldfmt}
+            yield "crash", {"kill": k, "torn": 0, "fresh": k % 2, "via": "profile" if k % 3 else "manager", "oldfmt": oldfmt, "then_save": 1}
             yield "crash", {"kill": k, "torn": 1, "fresh": 0, "via": "profile", "oldfmt": oldfmt}
     for k in range(0, 8):
         yield "crash", {"kill": k, "torn": 0, "fresh": 0}
@@ -417,6 +418,24 @@ def run_crash(chk, case):
         fails.append(oracle("C19:crash-not-atomic", "save%s killed before file operation #%d%s (%s%s profile): the profile now loads as %s (file: %s)"
                             % (" through YowProfile.write_config" if case.get("via") == "profile" else "", case["kill"], " with a torn write" if case["torn"] else "",
                                "fresh" if case["fresh"] else "existing", " key=value" if keyval else "", str(got)[:200], cls)))
+    if not fails and killed and case.get("then_save"):
+        # life goes on after the crash: the next, ordinary save of a SHORTER configuration (whatever the dead process left lying around —
+        # a temporary file, a half-written file — must not leak into it)
+        later = build_config({"phone": "491111", "cc": 49, "client_static_keypair": "cc" * 64, "pushname": "n"})
+        try:
+            if case.get("via") == "profile":
+                from yowsup.profile.profile import YowProfile
+                YowProfile(name).write_config(later)
+            else:
+                cm.save(name, later)
+            loaded2 = cm.load(name)
+            got2 = None if loaded2 is None else canon(loaded2, keyval)
+        except Exception as e:
+            got2 = "%s: %s" % (type(e).__name__, str(e)[:80])
+        chk.hit("crash:then-save")
+        if got2 != canon(later, keyval):
+            fails.append(oracle("C19:save-after-crash-corrupt", "save killed before file operation #%d (%s%s profile), then an ordinary save of a shorter configuration: the profile "
+                                "loads as %s" % (case["kill"], "fresh" if case["fresh"] else "existing", " key=value" if keyval else "", str(got2)[:200])))
     return fails
 
 
